@@ -191,11 +191,50 @@ def power_probe(ctx, seed, tight=False):
     ctx.count('power:ok:' + shape_kind + ':' + spelling)
 
 
+def quad_probe(ctx, seed):
+    """quadratic forms with off-diagonal entries (symmetric or not, PSD symmetric part) in constraint and objective position, ro and
+    dro front ends: the accepted inequality x'Qx <= rhs must hold at the returned point, a reported objective must be the
+    expression's value there"""
+    import rsome as rso
+    from rsome import ro, dro
+    r = np.random.default_rng(seed)
+    ctx.search_cases += 1; ctx.evaluations += 1
+    k = int(r.integers(2, 4))
+    B = r.integers(-2, 3, (k, k)).astype(float)
+    Q = B.T @ B + np.eye(k) * float(r.choice([0.0, 0.5]))
+    if r.random() < 0.4:
+        N = np.triu(r.integers(-1, 2, (k, k)).astype(float), 1); Q = Q + N - N.T          # non-symmetric, same symmetric part
+    front = str(r.choice(['ro', 'dro'])); pos = str(r.choice(['constraint', 'objective'])); c = r.choice([-2.0, -1.0, 1.0, 2.0], k)
+    case = {"quad_seed": seed, "Q": Q.tolist(), "front": front, "position": pos}
+    try:
+        with C.quiet():
+            m = ro.Model() if front == 'ro' else dro.Model(1)
+            x = m.dvar(k)
+            if pos == 'constraint':
+                m.max(c @ x); m.st(rso.quad(x, Q) <= 1.0, x <= 10, x >= -10)
+            else:
+                m.min(rso.quad(x, Q) - c @ x); m.st(x <= 10, x >= -10)
+            val = C.solve_model(m)
+            xs = np.asarray(x.get(), dtype=float).reshape(-1)
+    except C.SkipCase:
+        ctx.count('quad:skipped'); return
+    except Exception as ex:
+        ctx.count('quad:raises:' + type(ex).__name__); return
+    qv = float(xs @ Q @ xs)
+    if pos == 'constraint' and qv > 1.0 + 1e-5:
+        ctx.hit('constraint-violated:quad', {"x": xs.tolist(), "xQx": qv, "rhs": 1.0}, case); return
+    if pos == 'objective' and abs((qv - float(c @ xs)) - val) > 1e-5 * (1 + abs(val)):
+        ctx.hit('objective-value-differs:quad', {"reported": float(val), "evaluated": qv - float(c @ xs)}, case); return
+    ctx.count('quad:ok:' + front + ':' + pos)
+
+
 def run(ctx):
     for k in range(ctx.n(24, 300)):
         persp_probe(ctx, int(ctx.rng.integers(2 ** 31)))
     for k in range(ctx.n(40, 600)):
         power_probe(ctx, int(ctx.rng.integers(2 ** 31)))
+    for k in range(ctx.n(24, 400)):
+        quad_probe(ctx, int(ctx.rng.integers(2 ** 31)))
     # correspondence: the Lean atom encoders vs the real do_math() on random single- and multi-atom models (exact)
     C.run_difftest(ctx, 'test_atoms_soc.py', ctx.n(150, 3000), 'atom encodings A/M/I/E/S/Q/rsocone, bound folding, vtype vector')
     C.run_difftest(ctx, 'test_atoms_exp.py', ctx.n(120, 2500), 'atom encodings X/L/P/F/pexp/plog/KL')
@@ -215,6 +254,10 @@ def replay(rp):
     if 'persp_seed' in case:
         ctx = C.Ctx('C06', 'quick', 0)
         persp_probe(ctx, case['persp_seed'])
+        return {"hits": [(h['key'], h['detail']) for h in ctx.hits], "fails": bool(ctx.hits)}
+    if 'quad_seed' in case:
+        ctx = C.Ctx('C06', 'quick', 0)
+        quad_probe(ctx, case['quad_seed'])
         return {"hits": [(h['key'], h['detail']) for h in ctx.hits], "fails": bool(ctx.hits)}
     if 'power_seed' in case:
         ctx = C.Ctx('C06', 'quick', 0)
